@@ -38,7 +38,8 @@ LEVEL_TEXT = ("Machine-checked Coq theorems over an executable model of Row.as_b
               "interleaving of any number of threads each thread gets exactly the sequential result (so all theorems apply to every record "
               "emitted under every schedule); the step model is tied to the code by forcing, with real threads, one thread switch before each "
               "bytecode instruction of as_bytes / from_bytes / Row.__new__ while a second thread encodes and decodes another row, and comparing "
-              "every record both threads get back with the model in Coq.")
+              "every record both threads get back with the model in Coq. Text is stored verbatim (the record determines the row: encode_row is "
+              "injective); the correspondence sweeps every code point that a Unicode normal form, a case mapping or strip() would rewrite.")
 LEVEL_NOTE = ("Trusted: Coq kernel + vm_compute; the hand-written msgpack reader/writer model (ormsgpack itself is Rust: validated byte-for-byte "
               "by the correspondence, not verified); the Python object <-> value-tree mapping of the harness (tuples become lists, dict = "
               "insertion-ordered association list, floats by their 64 bits); time.time_ns() is an input. compiled.pyx cannot be rebuilt: its "
@@ -281,7 +282,9 @@ RULE = ("rows are generated as typed value trees (nil, bool, int, float-by-bits,
         "Row.as_bytes with time.time_ns pinned, Row.from_bytes, and from_bytes on every tear point (sampled for records > 2000 bytes), "
         "random suffixes and every single-bit change of bytes 0..5; raw cases hand from_bytes arbitrary bytes (foreign msgpack encodings, "
         "mutated payloads, random garbage, header variants); schedule cases take two rows and two clock readings and force every "
-        "single thread switch (instruction granularity) of one thread's as_bytes + from_bytes in favour of a second thread doing the same on the other row. "
+        "single thread switch (instruction granularity) of one thread's as_bytes + from_bytes in favour of a second thread doing the same on the other row; "
+        "the text sweep (exhaustive, from the live unicodedata) puts every code point that NFC/NFD/NFKC/NFKD/lower/upper/casefold/title/strip rewrites, and the "
+        "canonical decomposition of every decomposable one, at the top level, inside a list, as a map value and as a map key. "
         "A case is non-trivial when the encoder emitted a record of a non-empty row "
         "(row cases) or the header checks passed (raw cases); distinct by canonical JSON of the case")
 TRUSTED = [
@@ -518,6 +521,8 @@ def _decode(data):
         r = Row.from_bytes(data)
     except Exception as e:  # noqa: BLE001 - the class is the observation
         return ["raise", _cls(e)], None
+    if not isinstance(r, (tuple, list)):
+        return ["returned", type(r).__name__], None      # from_bytes handed back something that is not a row (None, ...)
     vals = list(r)
     return ["ok", [_canon(x) for x in vals]], vals
 
@@ -813,8 +818,8 @@ def _emit_verdict(row, enc, dec):
     if in_domain and not any(_is_dt_form(t) for t in row):
         if dec != ["ok-same"]:
             return f"from_bytes(as_bytes(row)) must equal the row value for value (type-strict, NaN by bits); got {str(dec)[:300]}"
-    elif dec == DE:
-        return "every record the encoder emits must be accepted by the decoder, got DataError"
+    elif dec == DE or dec[0] == "returned":
+        return "every record the encoder emits must be accepted by the decoder and decoded into a row, got " + ("DataError" if dec == DE else "a " + dec[1])
     return None
 
 
@@ -840,7 +845,13 @@ def _oracle_sched(case, obs):
 def oracle(case, obs):
     kind = case["kind"]
     if kind == "raw":
-        return None          # nothing is claimed about foreign bytes; the model comparison covers them
+        data = _unspec(case["data"])
+        if _header_prefix_of_a_record(data) and obs["dec"] != DE:
+            return (f"these {len(data)} bytes are a strict prefix of a record the encoder emits (a write torn inside the header); "
+                    f"they must be rejected with DataError, got {str(obs['dec'])[:200]}")
+        if obs["dec"][0] == "returned":
+            return f"from_bytes must return a row or raise, it returned a {obs['dec'][1]}"
+        return None          # nothing else is claimed about foreign bytes; the model comparison covers them
     if kind == "sched":
         return _oracle_sched(case, obs)
     if kind == "cap":
@@ -876,6 +887,22 @@ def oracle(case, obs):
             what = "version nibble" if i == 0 else "length field"
             return f"flipping bit {b} of byte {i} ({what}) must be rejected with DataError, got {str(o)[:200]}"
     return None
+
+
+def _header_prefix_of_a_record(data):
+    """data (<= 14 bytes) is a strict prefix of some record as_bytes emits: prefix bytes, then a length field that can be
+    completed to a payload length in 1..MAXIMUM_RECORD_SIZE (every such length is the payload of some row), then any clock bytes"""
+    from orso.row import HEADER_PREFIX, HEADER_SIZE, MAXIMUM_RECORD_SIZE
+
+    if len(data) > HEADER_SIZE:
+        return False
+    np = len(HEADER_PREFIX)
+    if data[:np] != HEADER_PREFIX[:len(data[:np])]:
+        return False
+    field = data[np:np + 4]
+    lo = int.from_bytes(field + b"\x00" * (4 - len(field)), "big")
+    hi = int.from_bytes(field + b"\xff" * (4 - len(field)), "big")
+    return lo <= MAXIMUM_RECORD_SIZE and hi >= 1
 
 
 def known(case, obs):
@@ -914,6 +941,15 @@ def _coq_bytes(b, limit=LIT_LIMIT):
     return "(" + " ++ ".join(parts) + " : list N)"
 
 
+_SHARED_TEXT = None      # hex of a text that the current row literal binds once as t0 (text sweep cases repeat one text four times)
+
+
+def _coq_text(hex_or_spec):
+    if _SHARED_TEXT is not None and hex_or_spec == _SHARED_TEXT:
+        return "t0"
+    return _coq_bytes(_unspec(hex_or_spec))
+
+
 def _coq_val(t):
     k = t[0]
     if k == "n":
@@ -925,7 +961,7 @@ def _coq_val(t):
     if k == "f":
         return "(MFloat %s)" % L.N(t[1])
     if k == "s":
-        return "(MStr %s)" % _coq_bytes(_unspec(t[1]))
+        return "(MStr %s)" % _coq_text(t[1])
     if k == "y":
         return "(MBin %s)" % _coq_bytes(_unspec(t[1]))
     if k in ("a", "t"):
@@ -933,7 +969,7 @@ def _coq_val(t):
     if k == "ra":
         return "(MArr (repv %s %s))" % (L.N(t[1]), _coq_val(t[2]))
     if k == "m":
-        return "(MMap %s)" % L.lst("(%s, %s)" % (_coq_bytes(bytes.fromhex(kk)), _coq_val(v)) for kk, v in t[1])
+        return "(MMap %s)" % L.lst("(%s, %s)" % (_coq_text(kk), _coq_val(v)) for kk, v in t[1])
     if k == "rm":
         return "(MMap (seq_map %s))" % L.N(t[1])
     if k == "nest":
@@ -949,6 +985,8 @@ def _coq_exn(c):
 
 
 def _coq_outcome(o):
+    if o[0] == "returned":
+        return "(ORaise OtherError)"      # decode_row never raises OtherError: a non-row return value can never match the model
     if o[0] == "raise":
         return "(ORaise %s)" % _coq_exn(o[1])
     if o[0] in ("ok-same", "ok-unchanged"):
@@ -994,12 +1032,22 @@ def to_coq(case, obs):
         if lit is None or out is None or _model_skips_raw(data, obs):
             return None
         return ("raw", "(%s, %s)" % (lit, out))
-    row_term = "(%s : list mval)" % L.lst(_coq_val(t) for t in case["row"])
+    global _SHARED_TEXT
+    if case.get("share"):
+        _SHARED_TEXT = case["share"]
+        try:
+            row_term = "(let t0 := %s in (%s : list mval))" % (_coq_bytes(_unspec(case["share"])), L.lst(_coq_val(t) for t in case["row"]))
+        finally:
+            _SHARED_TEXT = None
+    else:
+        row_term = "(%s : list mval)" % L.lst(_coq_val(t) for t in case["row"])
     ts = L.N(case["ts"])
     if obs["enc"][0] != "ok":
         return ("row", "((%s, %s, ERaise %s, OSame, []) : row_case)" % (ts, row_term, _coq_exn(obs["enc"][1])))
     rec = _unspec(obs["enc"][1])
     lit = _coq_bytes(rec)
+    if case.get("hash"):
+        lit = None
     enc = "EBytes %s" % lit if lit is not None else "EHash %s %s" % (L.N(len(rec)), L.N(_digest(rec)))
     dt_rows = [t for t in case["row"] if _is_dt_form(t)]
     if dt_rows and obs["dec"][0] == "raise" and obs["dec"][1] != "DataError" and any(t[1][1][0] in ("i", "f", "b") for t in dt_rows):
@@ -1151,11 +1199,21 @@ SMALL_LENS = [0, 1, 2, 15, 16, 31, 32, 33, 255, 256, 257]
 HUGE_LENS = [65535, 65536]
 TEXTS = ["", "a", "hello", "é", "€", "\U0001F600", "naïve ☃", "\x00", "\x7f", "\u0080", "߿", "ࠀ", "￿", "\U00010000",
          "\U0010ffff", "__datetime__", "k"]
+# text that some "harmless" text function would rewrite: not in NFC / NFD / NFKC form, case-folding specials, white space and
+# invisible code points at the ends, line separators, BOM, bidi marks, variation selectors, a ZWJ sequence
+SENSITIVE_TEXTS = [
+    "e\u0301", "\u00e9", "\u212b", "\u2126", "\u212a", "\u1112\u1161\u11ab", "\ud55c", "q\u0307\u0323", "q\u0323\u0307", "\u0344", "\u0958",
+    "\ufb01", "\u00b2", "\uff21", "\u2460", "\u00bd", "\u00df", "\u1e9e", "\u03c2", "\u03c3", "\u0131", "\u0130", "i\u0307", "\u017f", "\u01c5",
+    "STRASSE", "Stra\u00dfe", " a", "a ", "\ta\n", "a\r\n", "\u00a0a\u00a0", "\u2028", "\u2029", "\u0085", "\ufeffa", "a\ufeff", "\u200b", "\u200e\u200f",
+    "\u2764\ufe0f", "\U0001F468\u200d\U0001F469\u200d\U0001F467", "\U0001F1EB\U0001F1F7", "\u0041\u030a", "\u00c5", "\u1100\u1161", "\u0f73", "\u0f71\u0f72",
+    "\U0001D15E", "\u2000", "\u3000", "\u00ad", "1e5", "0x10", "NaN", "None", "null", "true", "\\u0041", "%s", "{0}",
+]
 
 
 def _text_tree(rng, nbytes=None):
     if nbytes is None:
-        s = rng.choice(TEXTS) if rng.random() < 0.7 else "".join(rng.choice("abé€\U0001F600 z") for _ in range(rng.randint(0, 12)))
+        r = rng.random()
+        s = rng.choice(TEXTS) if r < 0.5 else rng.choice(SENSITIVE_TEXTS) if r < 0.7 else "".join(rng.choice("abé€\U0001F600 z") for _ in range(rng.randint(0, 12)))
         return ["s", _spec(s.encode())]
     head = rng.choice([b"", "é".encode(), "€".encode(), "\U0001F600".encode()]) if nbytes >= 4 and rng.random() < 0.5 else b""
     return ["s", _spec(head + b"a" * (nbytes - len(head)))]
@@ -1187,7 +1245,8 @@ def _float_tree(rng):
 
 def _key_hex(rng, used):
     while True:
-        k = rng.choice(["k", "a", "", "key", "é", "__datetime__", "x" * 31, "y" * 32]) if rng.random() < 0.5 else "".join(
+        r = rng.random()
+        k = rng.choice(["k", "a", "", "key", "é", "__datetime__", "x" * 31, "y" * 32]) if r < 0.4 else rng.choice(SENSITIVE_TEXTS) if r < 0.5 else "".join(
             rng.choice("abcxyzé") for _ in range(rng.randint(1, 6)))
         h = k.encode().hex()
         if h not in used:
@@ -1507,6 +1566,79 @@ def _huge_cases(rng, tier):
             yield _row_case(rng, [["ra", n, ["n"]], ["ra", n + 1, ["s", "61"]]])
 
 
+# ---- every code point some text function rewrites ----------------------------------------
+_TEXT_FUNCTIONS = None
+
+
+def _text_functions():
+    import unicodedata as U
+
+    return [("NFC", lambda x: U.normalize("NFC", x)), ("NFD", lambda x: U.normalize("NFD", x)), ("NFKC", lambda x: U.normalize("NFKC", x)),
+            ("NFKD", lambda x: U.normalize("NFKD", x)), ("lower", str.lower), ("upper", str.upper), ("casefold", str.casefold),
+            ("title", str.title), ("strip", str.strip)]
+
+
+HANGUL = range(0xAC00, 0xD7A4)
+
+
+def _sensitive_items():
+    global _SENSITIVE
+    if _SENSITIVE is None:
+        _SENSITIVE = _sensitive_items1()
+    return _SENSITIVE
+
+
+_SENSITIVE = None
+
+
+def _sensitive_items1():
+    """short texts, from the live unicodedata: every code point that NFC / NFD / NFKC / NFKD / lower / upper / casefold / title /
+    strip does not leave alone (Hangul syllables: every 349th, they decompose by one arithmetic rule), and the canonical
+    decomposition of every decomposable code point (a text that is NOT in NFC form)"""
+    import unicodedata as U
+
+    fns = _text_functions()
+    items, n_cp, n_dec = [], 0, 0
+    for c in range(0x110000):
+        if 0xD800 <= c < 0xE000 or (c in HANGUL and (c - 0xAC00) % 349):
+            continue
+        ch = chr(c)
+        if any(f(ch) != ch for _, f in fns):
+            items.append(ch)
+            n_cp += 1
+            d = U.normalize("NFD", ch)
+            if d != ch and U.normalize("NFC", d) != d:
+                items.append(d)
+                n_dec += 1
+    if n_cp < 5000 or n_dec < 800:
+        raise RuntimeError("unicodedata: implausibly few transformation-sensitive code points")
+    return items, n_cp, n_dec
+
+
+TEXT_CHUNK = 64
+
+
+def _text_sweep_cases():
+    items, _, _ = _sensitive_items()
+    items = items + [s for s in SENSITIVE_TEXTS if s]
+    for k in range(0, len(items), TEXT_CHUNK):
+        text = " ".join(items[k:k + TEXT_CHUNK])           # the separator keeps neighbours from composing with each other
+        h = text.encode().hex()
+        # the same text at the top level, inside a list, as a map value and as a map key
+        row = [["s", h], ["a", [["s", h], ["i", k]]], ["m", [[h, ["s", h]]]]]
+        yield {"kind": "row", "ts": TS_DEFAULT + k, "row": row, "tears": [0, 1, 13, 14, 15, 16], "suffixes": ["00"], "flips": "all", "hash": True, "share": h}
+
+
+def exhaustive(tier):
+    _, n_cp, n_dec = _sensitive_items()
+    import unicodedata as U
+
+    return (_text_sweep_cases(),
+            f"text: all {n_cp} code points (Unicode {U.unidata_version}; Hangul syllables sampled 1 in 349) that NFC/NFD/NFKC/NFKD/lower/upper/casefold/"
+            f"title/strip rewrite, and the canonical decomposition of the {n_dec} canonically decomposable ones, each as a top-level text cell, "
+            f"inside a list, as a map value and as a map key ({TEXT_CHUNK} per row)")
+
+
 # ---- schedule cases ----------------------------------------------------------------------
 def _sched_case(row_a, ts_a, row_b, ts_b):
     return {"kind": "sched", "a": {"ts": ts_a, "row": row_a}, "b": {"ts": ts_b, "row": row_b}}
@@ -1582,6 +1714,8 @@ def shrink(case):
         return
     if case["kind"] != "row":
         return
+    if "share" in case or "hash" in case:      # literal-size hints of the text sweep: not needed by a small case
+        yield {k: v for k, v in case.items() if k not in ("share", "hash")}
     row = case["row"]
     for i in range(len(row)):
         yield dict(case, row=row[:i] + row[i + 1:])
@@ -1592,14 +1726,20 @@ def shrink(case):
             for j in range(len(t[1])):
                 yield dict(case, row=row[:i] + [[t[0], t[1][:j] + t[1][j + 1:]]] + row[i + 1:])
         elif t[0] == "m":
-            for _, v in t[1]:
+            for kk, v in t[1]:
                 yield dict(case, row=row[:i] + [v] + row[i + 1:])
+                if kk != "6b" and len(t[1]) == 1:
+                    yield dict(case, row=row[:i] + [["s", kk]] + row[i + 1:])
             for j in range(len(t[1])):
                 yield dict(case, row=row[:i] + [["m", t[1][:j] + t[1][j + 1:]]] + row[i + 1:])
         elif t[0] in ("ra", "rm") and t[1] > 0:
             yield dict(case, row=row[:i] + [[t[0], t[1] // 2] + t[2:]] + row[i + 1:])
         elif t[0] in ("s", "y") and _unspec(t[1]):
             b = _unspec(t[1])
+            if t[0] == "s" and _utf8_ok(b) and len(b.decode()) > 1:
+                u = b.decode()
+                for part in (u[: len(u) // 2], u[len(u) // 2:], u[1:], u[:-1]):
+                    yield dict(case, row=row[:i] + [["s", _spec(part.encode())]] + row[i + 1:])
             yield dict(case, row=row[:i] + [[t[0], _spec(b[: len(b) // 2] if t[0] == "y" else b"a" * (len(b) // 2))]] + row[i + 1:])
         elif t[0] == "i" and t[1] not in (0, 1):
             yield dict(case, row=row[:i] + [["i", 1]] + row[i + 1:])
